@@ -58,6 +58,16 @@ func init() {
 		utlsPath + ".verifIsSymbolic":  func(fr *frame, a []value) value { return fr.ctx().Concrete == nil },
 		utlsPath + ".verifConcretize":  extVerifConcretize,
 		utlsPath + ".verifFail":        extVerifFail,
+		utlsPath + ".verifThorough":    func(fr *frame, a []value) value { return fr.ctx().Thorough },
+		utlsPath + ".verifAnd": func(fr *frame, a []value) value {
+			return mkVal(types.Bool, smt.And(boolTerm(a[0]), boolTerm(a[1])))
+		},
+		utlsPath + ".verifOr": func(fr *frame, a []value) value {
+			return mkVal(types.Bool, smt.Or(boolTerm(a[0]), boolTerm(a[1])))
+		},
+		utlsPath + ".verifIteU16": func(fr *frame, a []value) value {
+			return mkVal(types.Uint16, smt.Ite(boolTerm(a[0]), termOf(a[1]), termOf(a[2])))
+		},
 
 		// bytes / strings primitives (assembly in the real build)
 		"internal/bytealg.IndexByte":       extIndexByte,
